@@ -288,7 +288,7 @@ def check_decoded(ctx, entry, t, sig):
             return out
 
         finish(guarded(fn), chk)
-    elif entry in ("with_query_dict", "with_query_seq", "with_query_mdict", "build.query", "update_query_dict", "with_query_seq_strsub", "extend_query_seq_strsub",
+    elif entry in ("with_query_dict", "with_query_seq", "with_query_mdict", "build.query", "update_query_dict", "with_query_seq_strsub", "extend_query_seq_strsub", "with_query_kwargs_key", "extend_query_kwargs_key",
                    "update_query_seq_strsub", "with_query_dict_strsub", "with_query_kwargs_strsub"):
         from ..ops import StrSub
 
@@ -317,7 +317,11 @@ def check_decoded(ctx, entry, t, sig):
 
             finish(guarded(fn), chk2)
             return
-        if entry == "with_query_dict":
+        if entry == "with_query_kwargs_key":
+            fn, pairs = (lambda: base.with_query(**{k: v})), [(k, v)]
+        elif entry == "extend_query_kwargs_key":
+            fn, pairs, pre = (lambda: base.extend_query(**{k: v})), [(k, v)], [("q", "1")]
+        elif entry == "with_query_dict":
             fn, pairs = (lambda: base.with_query({k: v})), [(k, v)]
         elif entry == "with_query_seq":
             fn, pairs = (lambda: base.with_query([(k, v), (v, k)])), [(k, v), (v, k)]
@@ -347,7 +351,7 @@ def check_decoded(ctx, entry, t, sig):
 DECODED_ENTRIES = ["build.user", "build.password", "build.password_nouser", "build.password_emptyuser", "with_user", "with_password", "with_fragment", "build.fragment", "with_path", "build.path", "with_path_rel",
                    "build.path_noauth", "with_name", "div", "joinpath", "div_rel", "with_query_str", "build.query_string", "extend_query_str", "with_query_dict",
                    "with_query_seq", "with_query_mdict", "build.query", "update_query_dict", "with_query_seq_strsub", "extend_query_seq_strsub", "update_query_seq_strsub",
-                   "with_query_dict_strsub", "with_query_kwargs_strsub"]
+                   "with_query_dict_strsub", "with_query_kwargs_strsub", "with_query_kwargs_key", "extend_query_kwargs_key"]
 
 
 # ---------------------------------------------------------------------- join
